@@ -143,14 +143,14 @@ def main():
             "add_only": True,
         },
         "engines": [
-            {"name": "kani-harnesses", "path": "/verif/tools/kani_runner.py", "serves_properties": ["C15", "C16", "C21"],
+            {"name": "kani-harnesses", "path": "/verif/tools/kani_runner.py", "serves_properties": ["C15", "C16", "C20", "C21"],
              "kind_free_text": "cargo kani on /verif/kani (path dependency on /repo, hooks cfg on): fully symbolic inputs, constant loop bounds, unwinding assertions"},
             {"name": "verus-contracts", "path": "/verif/tools/runner.py", "serves_properties": sorted(CLAIMED),
-             "kind_free_text": "per run: extract the real functions from /repo's working tree (tools/extract.py), splice contracts from contracts/*.vspec, verify each unit with single-file Verus, map failed obligations to labelled clauses, replay against the compiled crate (replay/)"},
+             "kind_free_text": "per run: extract the real functions from /repo's working tree (tools/extract.py), splice contracts from contracts/*.vspec, verify each unit with single-file Verus, map failed obligations to labelled clauses, replay against the compiled crate (replay/); bounded stand-ins (labelled bounded, never counted as proved) for the few functions no contract reaches (C15 C16 C20 C22 C29)"},
         ],
         "checks": checks,
         "not_applicable": na,
-        "notes": "exit 0 pass (KNOWN-FINDING lines for listed findings), exit 1 VIOLATION, exit 2 undecided (lost anchor, unsupported construct, rlimit, vacuity). See DESIGN.md.",
+        "notes": "exit 0 pass (KNOWN-FINDING lines for listed findings), exit 1 VIOLATION, exit 2 undecided (lost anchor, unsupported construct, rlimit, vacuity). Repairs of genuine defects of /repo (fix: commits cd49a81, aee06f2, 1e76c28) and the known findings F1-F3 are listed in known_findings.json. See DESIGN.md (section 11.21 for the state at the end of the build).",
     }
     with open(os.path.join(VERIF, "MANIFEST.json"), "w") as f:
         json.dump(m, f, indent=1)
